@@ -284,9 +284,9 @@ def gen(rng, kinds, threads_choices=(1, 2, 2, 3)):
             sc["reenter"] = {rng.choice(used): ["dispose"]}  # this item's teardown disposes the container it was put into
     if kind == "disposable" and rng.random() < 0.25:
         sc["reenter"] = {"action": ["dispose"]}  # the action disposes its own Disposable again (directly, or through a group it belongs to)
+    if len(scripts) > 1 and sc["sched"]["k"] and rng.random() < 0.3:
+        sc["sched"]["opcodes"] = True  # pre-emption points between the bytecodes of reactivex/disposable/*.py (else: between its lines)
     return sc
-    return {"kind": kind, "items": items, "scripts": scripts,
-            "sched": {"seed": rng.getrandbits(32), "k": rng.choice([0, 1, 2, 2, 3, 3]) if len(scripts) > 1 else 0}}
 
 
 # ------------------------------------------------------------------ execution
@@ -422,14 +422,17 @@ def execute(sc, pid):
     sched = sc["sched"]
     cps = sc.get("cps")
     multi = len(sc["scripts"]) > 1
+    kw = {"opcode_files": ("reactivex/disposable/",)} if sched.get("opcodes") else {}
     if cps is None and multi and sched["k"] > 0:
         dry = Work(sc)
-        sim = th.run_sim(dry.body, sched["seed"], (), record=True)
+        sim = th.run_sim(dry.body, sched["seed"], (), record=True, **kw)
         cps = th.choose_cps(random.Random(sched["seed"] ^ 0x5DEECE66D), sim.sites, sim.marker or 0, sim.steps, sched["k"])
         out.evals += 1
     cps = cps or []
     work = Work(sc)
-    sim = th.run_sim(work.body, sched["seed"], cps)
+    sim = th.run_sim(work.body, sched["seed"], cps, **kw)
+    if kw:
+        out.probes["bytecode_level_points"] += 1
     out.steps = sim.steps
     out.faults.update({k: v for k, v in sim.faults.items() if v})
     out.sim_time = sim.seconds()
